@@ -897,6 +897,32 @@ DIRECTIVE_BLOCKS = [
     "```{parsed-literal}\na *b*\n```", "```{line-block}\na\nb\n```", "```{container} cls\nx\n```",
     "```{highlight} c\n```", "```{only} html\nx\n```", "```{versionadded} 1.0\nnew\n```", "```{centered} mid\n```",
     "```{note}\n---\n```", "```{note}\n(tgt)=\ntext\n```", "```{class} cc\n```",
+    # structured bodies of the docutils-core directives whose nodes MyST's mocked state builds (mocking.py):
+    # line-block nesting, block quotes with attribution, tables, figure / image targets, titles with inline markup
+    "```{line-block}\none\n  two\nthree\n  four\n  five\nsix\n```",
+    "```{line-block}\n  lead *in*\na\n  b\n    c\n      d\n    e\n\n  f\ng\n\n    h\n  i\n```",
+    "```{epigraph}\nPara *one*.\n\nPara two.\n\n-- Author **B**\n```",
+    "```{pull-quote}\nq\n\n--- a *b*\n  more\n```",
+    "```{highlights}\n- item\n\ntext\n\n-- first\n\n-- second\n```",
+    "````{epigraph}\n```{note}\nn\n```\n\n-- w\n````",
+    "```{list-table} Title *em* **s**\n:header-rows: 1\n:stub-columns: 1\n:widths: 10 20 30\n\n* - h1\n  - h2\n  - h3\n"
+    "* - a\n  - b *x*\n  - - nested\n    - list\n```",
+    "````{list-table}\n:widths: 1 2\n\n* - ```{note}\n    in cell\n    ```\n  - c\n````",
+    "```{csv-table} CSV **t**\n:header: A, \"B *x*\", C\n:widths: auto\n:stub-columns: 1\n\n\"a, b\", c, d\ne, \"f\n\ng\", h\n```",
+    "```{csv-table}\na,b\nc,*d*\n```",
+    "```{table} Table *title*\n:align: center\n:widths: 1 2\n\n| a | b |\n|---|---|\n| 1 | 2 |\n```",
+    "```{figure} a.png\n:target: https://e.x/a b\n:alt: alt\n:figclass: k\n\nCaption *em*\n\nLegend para.\n\n- legend list\n```",
+    "```{figure} a.png\n:target: some name_\n\n%\n\nlegend only\n```",
+    "```{image} a.png\n:target: https://e.x\n```", "```{image} a.png\n:target: nm_\n:alt: t\n```",
+    "```{admonition} Title *em* **s** [l](http://a.b)\n:class: k\n\nbody\n```",
+    "```{topic} Topic *t* **s**\ntbody\n\n- l\n```",
+    "```{sidebar} Side **s**\n:subtitle: Sub *t* [x](http://a.b)\n\nsbody\n```",
+    "```{rubric} Rubric *r* **s**\n:class: k\n```",
+    "```{parsed-literal}\nlit *em* [l](http://a.b)\n  second **s**\n```",
+    "```{compound}\npara\n\n    code\n\n- list\n```",
+    "````{container} k1 k2\npara\n\n```{note}\ninner\n```\n````",
+    "```{role} c02role(emphasis)\n:class: special\n```\n\n{c02role}`text`",
+    "```{role} c02raw(raw)\n:format: html\n```\n\n{c02raw}`<b>x</b>`",
 ]
 COLON_BLOCKS = [
     ":::{note}\ncolon *w*\n:::", ":::{tip}\n- a\n:::", "::::{note}\n:::{tip}\ninner\n:::\n::::", ":::{image} a.png\n:::",
